@@ -49,7 +49,8 @@ def facade_behaviour(ctx):
     from gradient_free_optimizers.search import Search
     u = ctx.unit("X:facade vs (backend, Search)", "support",
                  "every public class against `class T(backend, Search)` with the same constructor arguments: defaults, and each "
-                 "parameter set to a non-default value (one at a time, and all jointly), same seed; compared: search_data, best; "
+                 "parameter set to a non-default value (one at a time, and all jointly) and to an explicit falsy value (initialize={}, "
+                 "constraints=[], rand_rest_p=0, nth_process=0), same seed; compared: search_data, best; "
                  "non-trivial = a non-default parameter; distinct by (class, parameter)")
     info = getattr(ctx, "_facade_info", None) or json.load(open(os.path.join(COQ, "generated", "facade_tables.json")))["facades"]
     space = {"x": np.arange(0, 6), "y": np.array([0.0, 0.5, 1.0, 1.5, 2.0])}
@@ -64,8 +65,13 @@ def facade_behaviour(ctx):
         T = type("T_" + name, (backend, Search), {})
         plist = [p for p, d in fa["params"] if p in NONDEFAULT]
         trials = [dict()] + [{p: NONDEFAULT[p]} for p in plist] + [{p: NONDEFAULT[p] for p in plist}]
+        # explicit FALSY arguments (an `x or default` in a facade would replace them): empty initialize / constraints, zeros
+        pnames = [p for p, d in fa["params"]]
+        for fk, fv in (("initialize", {}), ("constraints", []), ("rand_rest_p", 0), ("nth_process", 0)):
+            if fk in pnames:
+                trials.append({fk: fv})
         if ctx.quick and name in SLOW_CLASSES:
-            trials = trials[:1] + trials[-1:]
+            trials = trials[:1] + [t_ for t_ in trials[1:] if set(t_) <= {"initialize", "constraints", "rand_rest_p", "nth_process"} and len(t_) == 1][:2] + trials[-5:-4]
         for kw in trials:
             if "population" in kw and name in ("GeneticAlgorithmOptimizer", "DifferentialEvolutionOptimizer"):
                 kw = dict(kw, population=6)
